@@ -66,15 +66,39 @@ def _check(prop: str, tier: str) -> int:
         print(f"ANALYSIS-ERROR property={prop} no rule module (property not claimed)")
         return 2
     run = Run(prop, tier)
+    # watchdog for the rules themselves (not for the battery, which runs in sub-processes): the analyser's interpreter runs
+    # regular expressions of the tree natively; if it ever does not come back, that is an analysis error, not a hang
+    import signal
+
+    class _Timeout(BaseException):
+        pass
+
+    def _alarm(signum, frame):
+        raise _Timeout()
+    limit = int(os.environ.get("SA_RULE_TIMEOUT", "600"))
+    old_handler = None
+    try:
+        old_handler = signal.signal(signal.SIGALRM, _alarm)
+        signal.alarm(limit)
+    except (ValueError, AttributeError):
+        old_handler = None
     try:
         prog = program()
-        run = _check_with_undecided(mod, prop, tier, prog)
+        try:
+            run = _check_with_undecided(mod, prop, tier, prog)
+        finally:
+            if old_handler is not None:
+                signal.alarm(0)
+                signal.signal(signal.SIGALRM, old_handler)
         if tier == "thorough":
             from . import battery
             battery.run_for(run, prop)
         return run.finish()
     except AnalysisError as e:
         print(f"ANALYSIS-ERROR property={prop} {e}")
+        return 2
+    except _Timeout:
+        print(f"ANALYSIS-ERROR property={prop} the rules did not finish within {limit} s (SA_RULE_TIMEOUT)")
         return 2
     except Exception:
         traceback.print_exc()
